@@ -762,6 +762,36 @@ func (e *specEnv) callSpec(n *ECall) Val {
 			return VBool{tAnd(tLt("0", r.T), tLe(r.T, ex.frontierOf(e.callPre)))}
 		}
 		return VBool{tAnd(tLt("0", r.T), tLe(r.T, ex.heapTop()))}
+	case "closure":
+		// closure(v, "pkg.fn$1"): the function value v is that closure (package initialisers are executed
+		// concretely, so detector variables hold concrete closures)
+		fv, ok := argv(0).(VFunc)
+		name := n.Args[1].(*EStr).V
+		if !ok || fv.Fn == nil {
+			return VBool{"false"}
+		}
+		if ex.prog.keyOf(fv.Fn) == name {
+			return VBool{"true"}
+		}
+		return VBool{"false"}
+	case "freevar":
+		// freevar(v, "x"): the value captured for free variable x by the closure v
+		fv, ok := argv(0).(VFunc)
+		name := n.Args[1].(*EStr).V
+		if !ok || fv.Fn == nil {
+			e.fail("freevar of a non-closure")
+		}
+		for i, f := range fv.Fn.FreeVars {
+			if f.Name() == name && i < len(fv.Free) {
+				if cp, isCell := fv.Free[i].(VCellPtr); isCell {
+					if v, live := e.cur().cells[cp.C]; live {
+						return v
+					}
+				}
+				return fv.Free[i]
+			}
+		}
+		e.fail("closure has no free variable %q", name)
 	case "loads":
 		// loads(): how many atomic reads of shared variables this execution has performed
 		if c, ok := e.cur().ghost["atomic_loads"].(VInt); ok {
